@@ -16,7 +16,15 @@ it.allocate_tensors()
 keys = sorted({k.split('|')[0] for k in z.files})
 for key in keys:
     r = it.get_signature_runner(key)
-    r(**{k.split('|')[1]: z[k] for k in z.files if k.split('|')[0] == key})
+    feed = {}
+    for arg, d in r.get_input_details().items():
+        x = z[key + '|' + arg]
+        sc = d['quantization_parameters']['scales']
+        if len(sc) and np.issubdtype(d['dtype'], np.integer) and x.dtype.kind == 'f':
+            zp = d['quantization_parameters']['zero_points']; ii = np.iinfo(d['dtype'])
+            x = np.clip(np.rint(x.astype(np.float64) / float(sc[0])) + int(zp[0]), ii.min, ii.max).astype(d['dtype'])
+        feed[arg] = x
+    r(**feed)
 print('NO_ABORT')
 '''
 
